@@ -195,7 +195,7 @@ def _run_roundtrip(cfg, rec):
                       z3.And(conds) if conds else z3.BoolVal(True), "roundtrip:iterate-leaves-bounds"))
         for n_, g, fp in items:
             rec.check(ctx, n_, g, fp, wit, extra=ax)
-        rec.sample({"pc": [str(c) for c in ctx.pc][:4], "x": str(zreal(x)) if isinstance(x, SymReal) else x, "lb": str(lb), "ub": str(ub)})
+        rec.want_sample() and rec.sample({"pc": [str(c) for c in ctx.pc][:4], "x": str(zreal(x)) if isinstance(x, SymReal) else x, "lb": str(lb), "ub": str(ub)})
         rec.validate("roundtrip", {"v": 1.7, "lo": 0.4, "hi": 3.0}, {"x": math.log(1.7) if cfg["nn"] else 1.7})
 
 
@@ -297,7 +297,7 @@ def _run_vector(cfg, rec):
         ax = inverse_axioms(ctx)
         for n_, g, fp in items:
             rec.check(ctx, n_, g, fp, wit, extra=ax)
-        rec.sample({"flags": cfg["arr"], "free": list(free), "pc": [str(c) for c in ctx.pc][:3]})
+        rec.want_sample() and rec.sample({"flags": cfg["arr"], "free": list(free), "pc": [str(c) for c in ctx.pc][:3]})
         rec.validate("vector", {}, {"free": want_free})
 
 
@@ -373,7 +373,7 @@ def _run_optimize(cfg, rec):
                           z3.BoolVal(p.expression == expr and lab not in res.free_parameter_labels), "optimize:expression-lost"))
         for n_, g, fp in items:
             rec.check(ctx, n_, g, fp, wit, extra=ax)
-        rec.sample({"free": free_labels, "records": len(recs), "pc": [str(c)[:80] for c in ctx.pc][:3]})
+        rec.want_sample() and rec.sample({"free": free_labels, "records": len(recs), "pc": [str(c)[:80] for c in ctx.pc][:3]})
         rec.validate("optimize", dict(c02.DefaultEnv()), {"free": free_labels})
 
 
